@@ -292,6 +292,10 @@ def finish(res, level, coverage_extra, assumptions, proof_ok, search_fn=None):
                                               'explanation': 'the property is no longer shown to hold: the named theorem(s) or correspondence no longer check; no failing input was found within the search budget'})
         print(f'VIOLATION property={prop} replay={path} no-failing-input-found', flush=True)
         violations = 1; exit_code = 1
+    else:
+        stale = os.path.join(VERIF, 'replay', f'{prop}-{res.seed}.json')
+        if os.path.exists(stale):
+            os.remove(stale)      # a replay left by an earlier failing run of this check and seed no longer describes anything
     cov = {
         'obligations': max(res.proof['obligations'], 0),
         'discharged': res.proof['discharged'],
